@@ -48,6 +48,7 @@ def parseCEv (t : String) : Option CEv :=
   | ["f", f, n] => some (.fi (intD f) (intD n))
   | "a" :: f :: rest => some (.addFile (natD f) (":".intercalate rest))
   | ["i", b, s] => some (.init (natD b) (natD s))
+  | ["r", l, a, _] => some (.replay (intD l) (intD a))
   | ["e", p] => some (.fin (intD p))
   | _ => none
 
@@ -84,7 +85,7 @@ def parseExpEnt (s : String) : Option ExpEnt :=
 def parseExpect (ts : List String) : Expect :=
   let (lo, hi) := parseRange ((kv? ts "lines").getD "0")
   let tr := (kv? ts "trace").getD "-"
-  { kind := (kv? ts "kind").getD "plain", file := (kv? ts "file").getD "", lo := lo, hi := hi,
+  { kind := (kv? ts "kind").getD "plain", phase := (kv? ts "phase").getD (if (kv? ts "kind").getD "plain" == "init" then "load" else "call"), file := (kv? ts "file").getD "", lo := lo, hi := hi,
     program := (kv? ts "program").getD "", object := (kv? ts "object").getD "",
     trace := if tr == "-" then [] else (tr.splitOn "|").filterMap parseExpEnt }
 
@@ -210,7 +211,7 @@ def runJudge (body : List String) : List String :=
   let has (w : String) := input.any fun l => l.startsWith w
   -- a case without its set-up lines is not an observation about C18 (keeps the shrinker honest)
   if (has "load " && !has "file ") ||
-     (!exps.isEmpty && !(has "load " && has "file " && (has "apply " || exps.any fun e => e.kind == "init"))) then
+     (!exps.isEmpty && !(has "load " && has "file " && (has "apply " || exps.any fun e => e.phase == "load"))) then
     ["bad setup incomplete-case"] else
   match judgeEv exps (impl.map parseObs) with
   | [] => ["ok"]
